@@ -127,6 +127,11 @@ class Multisphere(ScatteringTheory):
         self.niter = niter
         self.eps = eps
         self.meth = meth
+        if not (qeps1 > 0 and qeps2 > 0):
+            # SCSMFO reads a tolerance of 0 as 'Rayleigh limit: first order
+            # only' and a negative one leaves the orders unset
+            raise ValueError("the truncation tolerances qeps1 and qeps2 "
+                             "must be positive")
         self.qeps1 = qeps1
         self.qeps2 = qeps2
         self.compute_escat_radial = compute_escat_radial
